@@ -215,6 +215,34 @@ theorem py_none_ok (v w : Val) (h : pyValidate E .noneTrait v = .ok w) : Good E 
   · simp [hn] at h; subst h; exact ⟨by simp [inDomain, hn], rfl⟩
   · simp [hn] at h
 
+theorem ite_ok {c : Prop} [Decidable c] {x w : Val}
+    (h : (if c then Res.ok x else Res.traitError) = Res.ok w) : c ∧ x = w := by
+  split at h <;> simp_all
+
+theorem stringRun_ok (mn : Nat) (mx re : Option Nat) (w x : Val) (s : String)
+    (h : stringRun E mn mx re w s (stringInit mn mx re) = .ok x) :
+    x = w ∧ strLenOk mn mx s = true ∧ strReOk E re s = true := by
+  cases re with
+  | none =>
+    by_cases hc : (mn == 0 && mx.isNone) = true
+    · simp only [stringInit, hc, if_true, stringRun] at h
+      cases h
+      simp only [Bool.and_eq_true, beq_iff_eq, Option.isNone_iff_eq_none] at hc
+      simp [strLenOk, strReOk, hc.1, hc.2]
+    · simp only [stringInit, hc, stringRun] at h
+      have := ite_ok h
+      simp [strReOk, this.1, this.2]
+  | some k =>
+    by_cases hc : (mn == 0 && mx.isNone) = true
+    · simp only [stringInit, hc, if_true, stringRun] at h
+      have := ite_ok h
+      simp only [Bool.and_eq_true, beq_iff_eq, Option.isNone_iff_eq_none] at hc
+      simp [strLenOk, hc.1, hc.2, this.1, this.2]
+    · simp only [stringInit, hc, stringRun] at h
+      have := ite_ok h
+      simp only [Bool.and_eq_true] at this
+      simp [this.1.1, this.1.2, this.2]
+
 theorem py_string_ok (hE : EnvOK E) (mn : Nat) (mx re : Option Nat) (v w : Val)
     (h : pyValidate E (.string mn mx re) v = .ok w) : Good E (.string mn mx re) v w := by
   simp only [pyValidate, stringValidate] at h
@@ -225,36 +253,11 @@ theorem py_string_ok (hE : EnvOK E) (mn : Nat) (mx re : Option Nat) (v w : Val)
       simp only [hcast] at h
       obtain ⟨s, rfl⟩ := exactTy_str x (hE.castTyped _ _ _ hcast)
       simp only [strOf] at h
-      cases re with
-      | none =>
-        cases mx with
-        | none =>
-          by_cases hm : mn = 0
-          · subst hm; simp at h; subst h
-            exact ⟨by simp [inDomain], hcast⟩
-          · have : (mn == 0) = false := by simpa using hm
-            simp [this] at h
-            obtain ⟨h1, rfl⟩ := h
-            exact ⟨by simp [inDomain, h1], hcast⟩
-        | some m =>
-          simp at h
-          obtain ⟨h1, rfl⟩ := h
-          exact ⟨by simp [inDomain, h1.1, h1.2], hcast⟩
-      | some k =>
-        cases mx with
-        | none =>
-          by_cases hm : mn = 0
-          · subst hm; simp at h
-            obtain ⟨h1, rfl⟩ := h
-            exact ⟨by simp [inDomain, h1], hcast⟩
-          · have : (mn == 0) = false := by simpa using hm
-            simp [this] at h
-            obtain ⟨h1, rfl⟩ := h
-            exact ⟨by simp [inDomain, h1.1, h1.2], hcast⟩
-        | some m =>
-          simp at h
-          obtain ⟨h1, rfl⟩ := h
-          exact ⟨by simp [inDomain, h1.1.1, h1.1.2, h1.2], hcast⟩
+      obtain ⟨rfl, h1, h2⟩ := stringRun_ok E mn mx re _ w s h
+      refine ⟨?_, hcast⟩
+      simp only [strLenOk, strReOk] at h1 h2
+      simp only [inDomain]
+      rw [Bool.and_eq_true]; exact ⟨h1, h2⟩
   · simp at h
 
 theorem completeValue_ok (keys : List String) (v w : Val) (s : String) (hs : strOf v = some s)
@@ -262,17 +265,17 @@ theorem completeValue_ok (keys : List String) (v w : Val) (s : String) (hs : str
     (∃ s', strOf w = some s' ∧ keys.contains s' = true) ∧
     (w = v ∨ ∃ s k, strOf v = some s ∧ keys.filter (fun k => s.isPrefixOf k) = [k] ∧ w = Val.ofStr k) := by
   unfold completeValue at h
-  by_cases hc : keys.contains s = true
-  · simp [hc] at h; subst h
+  split at h
+  · rename_i hc
+    cases h
     exact ⟨⟨s, hs, hc⟩, Or.inl rfl⟩
-  · simp only [hc] at h
-    split at h
+  · split at h
     · rename_i k hk
-      simp at h; subst h
+      cases h
       have hmem : k ∈ keys.filter (fun k => s.isPrefixOf k) := by simp [hk]
       refine ⟨⟨k, rfl, ?_⟩, Or.inr ⟨s, k, hs, hk, rfl⟩⟩
       simpa using (List.mem_filter.mp hmem).1
-    · simp at h
+    · cases h
 
 theorem py_prefixList_ok (vals : List String) (v w : Val) (h : pyValidate E (.prefixList vals) v = .ok w) :
     Good E (.prefixList vals) v w := by
@@ -282,7 +285,7 @@ theorem py_prefixList_ok (vals : List String) (v w : Val) (h : pyValidate E (.pr
   | some s =>
     simp only [hs] at h
     obtain ⟨⟨s', h1, h2⟩, h3⟩ := completeValue_ok vals v w s hs h
-    exact ⟨by simp [inDomain, h1, h2], h3⟩
+    exact ⟨by simp only [inDomain, h1, h2], h3⟩
 
 theorem py_prefixMap_ok (keys : List String) (vals : List Val) (v w : Val)
     (h : pyValidate E (.prefixMap keys vals) v = .ok w) : Good E (.prefixMap keys vals) v w := by
@@ -292,7 +295,7 @@ theorem py_prefixMap_ok (keys : List String) (vals : List Val) (v w : Val)
   | some s =>
     simp only [hs] at h
     obtain ⟨⟨s', h1, h2⟩, h3⟩ := completeValue_ok keys v w s hs h
-    exact ⟨by simp [inDomain, h1, h2], h3⟩
+    exact ⟨by simp only [inDomain, h1, h2], h3⟩
 
 theorem sound_atomic_ctrait (hE : EnvOK E) (t : TraitType) (hs : t.subs = none) (hn : t.isNoFast = false)
     (hc : t.soundLeaf = true) (v w : Val) (h : ctraitValidate E t v = .ok w) : Good E t v w := by
@@ -370,7 +373,432 @@ theorem sound_atomic_ctrait (hE : EnvOK E) (t : TraitType) (hs : t.subs = none) 
   case mapH keys vals =>
     obtain ⟨⟨i, h1⟩, rfl⟩ := fast_map_ok E _ v w h
     exact ⟨dictFind_some_isKey _ _ i h1, rfl⟩
-  all_goals trace_state
-  all_goals sorry
+  case rangeI lo hi a b => exact py_rangeI_ok E lo hi a b v w h
+  case tupleAny => exact py_tupleAny_ok E v w h
+  case type_ cls an => exact py_type_ok E cls an v w h
+  case noneTrait => exact py_none_ok E v w h
+  case string mn mx re => exact py_string_ok E hE mn mx re v w h
+  case prefixList vals => exact py_prefixList_ok E vals v w h
+  case prefixMap keys vals => exact py_prefixMap_ok E keys vals v w h
+  case this an =>
+    simp only [fastAlone] at h
+    split at h
+    · rename_i hc'; cases h; exact ⟨by simpa [inDomain] using hc', rfl⟩
+    · cases h
+  case callable an =>
+    simp only [fastAlone] at h
+    obtain ⟨hc', rfl⟩ := ite_ok h
+    refine ⟨?_, rfl⟩
+    simp only [validateCallable] at hc'
+    by_cases hn : v.isNone = true <;> simp_all [inDomain]
+  case functionH f =>
+    simp only [fastAlone] at h
+    cases hf : E.fn f v with
+    | ok x => simp [hf] at h; subst h; exact ⟨hE.fnRange _ _ _ hf, hf⟩
+    | error e => simp [hf] at h
+  case coerceH ty =>
+    have hr : coerceRest ty = [] := by simpa [TraitType.soundLeaf] using hc
+    rw [hr] at h
+    obtain ⟨h1, rfl⟩ := fast_coerce_nil_ok E _ v w h
+    exact ⟨h1, Or.inl ⟨h1, rfl⟩⟩
+  case instanceH cls an =>
+    have h' : fastAlone E (.typeChk an cls) v = .ok w ∨ fastAlone E (.instChk an cls) v = .ok w := by
+      by_cases ht : cls.isTypeType = true <;> simp [ht] at h
+      · exact Or.inl h
+      · exact Or.inr h
+    obtain ⟨h1, rfl⟩ := fast_check_ok E an cls v w h'
+    refine ⟨?_, rfl⟩
+    rcases h1 with ⟨ha, hn⟩ | hi <;> simp_all [inDomain]
+  case «instance» cls an mode dflt =>
+    by_cases hm : mode = 0
+    · subst hm
+      have h' : fastAlone E (.typeChk an cls) v = .ok w ∨ fastAlone E (.instChk an cls) v = .ok w := by
+        by_cases ht : cls.isTypeType = true <;> simp [ht] at h
+        · exact Or.inl h
+        · exact Or.inr h
+      obtain ⟨h1, rfl⟩ := fast_check_ok E an cls v w h'
+      refine ⟨?_, Or.inl rfl⟩
+      rcases h1 with ⟨ha, hn⟩ | hi <;> simp_all [inDomain]
+    · simp [hm] at h
+      simp only [fastAlone, hm, if_false] at h
+      by_cases hn : v.isNone = true
+      · simp only [hn, if_true] at h
+        have := ite_ok h
+        obtain ⟨ha, rfl⟩ := this
+        exact ⟨by simp [inDomain, ha, hn], Or.inl rfl⟩
+      · simp only [hn] at h
+        cases had : E.adapt v cls with
+        | error e => simp [had] at h
+        | ok o =>
+          cases o with
+          | some r =>
+            simp [had] at h; subst h
+            have hm1 : mode ≥ 1 := by omega
+            refine ⟨?_, Or.inr (Or.inl ⟨hm1, had⟩)⟩
+            rcases hE.adaptProvides _ _ _ had with hi | hp <;> simp_all [inDomain]
+          | none =>
+            simp only [had] at h
+            by_cases hi : Val.isInst cls v = true
+            · simp [hi] at h; subst h; exact ⟨by simp [inDomain, hi], Or.inl rfl⟩
+            · simp only [hi] at h
+              by_cases hm1 : mode = 1
+              · simp [hm1] at h
+              · simp [hm1] at h; subst h
+                have hm2 : mode ≥ 2 := by omega
+                exact ⟨by simp [inDomain, hm2], Or.inr (Or.inr ⟨hm2, rfl⟩)⟩
+
+
+theorem hasPy_false_atomic (t : TraitType) (v : Val) (hs : t.subs = none) (hn : t.isNoFast = false)
+    (hp : hasPy t = false) : pyValidate E t v = .raised .typeError := by
+  cases t <;> simp [TraitType.subs, TraitType.isNoFast] at hs hn <;> simp [hasPy] at hp <;> simp [pyValidate]
+
+/-- The Python validate of a leaf is sound too (through agreement with the
+compiled validator where there is one). -/
+theorem sound_atomic_py (hE : EnvOK E) (t : TraitType) (hs : t.subs = none) (hn : t.isNoFast = false)
+    (hc : t.soundLeaf = true) (hlc : t.leafClean = true) (v w : Val) (h : pyValidate E t v = .ok w) :
+    Good E t v w := by
+  apply sound_atomic_ctrait E hE t hs hn hc v w
+  by_cases hp : hasPy t = true
+  · cases hd : descOf E t with
+    | none => simp [ctraitValidate, ctraitValidateWith, hd, hp, h]
+    | some d =>
+      have hl : t.isLeaf = true := by cases t <;> simp [TraitType.subs] at hs <;> rfl
+      have hnt : (∃ items, t = .tuple items) → v.notTupleSub = true := by
+        rintro ⟨items, rfl⟩; simp [TraitType.subs] at hs
+      have := agree_leaf E hE.castIdem t d v hl hlc hd hp hnt
+      rw [h] at this
+      simp [ctraitValidate, ctraitValidateWith, hd]
+      exact this
+  · have := hasPy_false_atomic E t v hs hn (by simpa using hp)
+    rw [this] at h; cases h
+
+/-! ## Through tuples, unions and compounds -/
+
+mutual
+/-- Nothing, at any depth, stores values outside the declared domain:
+no TraitCoerceType(float / complex) (F42), and a Base* class only of a trait
+whose Python validate is itself clean. -/
+def TraitType.soundClean : TraitType → Bool
+  | .tuple items => soundCleanL items
+  | .baseTuple items => soundCleanL items
+  | .either alts _ => soundCleanL alts
+  | .union alts => soundCleanL alts
+  | .compoundH hs => soundCleanL hs
+  | .noFast t => t.soundClean && t.pyClean && hasPy t
+  | t => t.soundLeaf
+def soundCleanL : List TraitType → Bool
+  | [] => true
+  | t :: ts => t.soundClean && soundCleanL ts
+/-- The Python validate methods involved are clean (no Callable(allow_none=False),
+F40; none of the leaves whose Python method differs from the C validator). -/
+def TraitType.pyClean : TraitType → Bool
+  | .tuple _ => true
+  | .baseTuple _ => true
+  | .either alts _ => pyCleanL alts
+  | .union _ => true
+  | .compoundH hs => pyCleanL hs
+  | .noFast t => t.pyClean
+  | t => t.leafClean
+def pyCleanL : List TraitType → Bool
+  | [] => true
+  | t :: ts => t.pyClean && pyCleanL ts
+end
+
+/-- The entries a descriptor contributes to an enclosing compound. -/
+def Desc.entries : Desc → List Desc
+  | .complex ds => ds
+  | d => [d]
+
+theorem good_any_of_mem (ts : List TraitType) (t : TraitType) (v w : Val) (hm : t ∈ ts)
+    (hg : Good E t v w) : inDomainAny E ts w = true ∧ ConvAny E ts v w := by
+  induction ts with
+  | nil => simp at hm
+  | cons a as ih =>
+    rcases List.mem_cons.mp hm with rfl | h
+    · exact ⟨by simp [inDomainAny, hg.1], Or.inl hg.2⟩
+    · obtain ⟨h1, h2⟩ := ih h
+      exact ⟨by simp [inDomainAny, h1], Or.inr h2⟩
+
+def SoundP (t : TraitType) : Prop :=
+  (t.soundClean = true → ∀ d v w x, descOf E t = some d → x ∈ d.entries → altAlone E x v = .ok w → Good E t v w) ∧
+  (t.soundClean = true → ∀ v w, ctraitValidate E t v = .ok w → Good E t v w) ∧
+  (t.soundClean = true → t.pyClean = true → ∀ v w, pyValidate E t v = .ok w → Good E t v w)
+
+def SoundQ (ts : List TraitType) : Prop :=
+  (soundCleanL ts = true → ∀ v w x, x ∈ flatFast E ts → altAlone E x v = .ok w → ∃ t ∈ ts, Good E t v w) ∧
+  (soundCleanL ts = true → ∀ v w, pySel E false ts v = .ok w → ∃ t ∈ ts, Good E t v w) ∧
+  (soundCleanL ts = true → pyCleanL ts = true → ∀ v w, pySel E true ts v = .ok w → ∃ t ∈ ts, Good E t v w) ∧
+  (soundCleanL ts = true → ∀ v w, unionFirst E ts v = .ok w → ∃ t ∈ ts, Good E t v w) ∧
+  (soundCleanL ts = true → ∀ vs ws, ctraitValidateL E ts vs = .ok ws → ts.length = vs.length →
+      inDomainL E ts ws = true ∧ ConvL E ts vs ws)
+
+theorem soundQ_nil : SoundQ E [] := by
+  refine ⟨?_, ?_, ?_, ?_, ?_⟩
+  · intro _ v w x hx; simp [flatFast] at hx
+  · intro _ v w h; simp [pySel] at h
+  · intro _ _ v w h; simp [pySel] at h
+  · intro _ v w h; simp [unionFirst] at h
+  · intro _ vs ws h hl
+    cases vs with
+    | nil => simp [ctraitValidateL] at h; subst h; exact ⟨rfl, trivial⟩
+    | cons b bs => simp at hl
+
+
+theorem hasPy_false_raises : ∀ (t : TraitType) (v : Val), hasPy t = false → pyValidate E t v = .raised .typeError :=
+  TraitType.induct' (P := fun t => ∀ v, hasPy t = false → pyValidate E t v = .raised .typeError)
+    (Q := fun _ => True)
+    (fun t hs hn v hp => hasPy_false_atomic E t v hs hn hp)
+    (fun t ih v hp => by simpa [pyValidate] using ih v (by simpa [hasPy] using hp))
+    (fun t ts hs _ v hp => by cases t <;> simp [TraitType.subs] at hs <;> simp [hasPy] at hp)
+    trivial (fun _ _ _ _ => trivial)
+
+theorem flatFast_cons (t : TraitType) (ts : List TraitType) :
+    flatFast E (t :: ts) = (match descOf E t with | some d => d.entries | none => []) ++ flatFast E ts := by
+  cases hd : descOf E t with
+  | none => simp [flatFast, hd]
+  | some d => cases d <;> simp [flatFast, hd, Desc.entries]
+
+theorem ctraitValidate_of_none (t : TraitType) (v : Val) (hd : descOf E t = none) (hp : hasPy t = true) :
+    ctraitValidate E t v = pyValidate E t v := by
+  simp [ctraitValidate, ctraitValidateWith, hd, hp]
+
+theorem soundQ_cons (t : TraitType) (ts : List TraitType) (hP : SoundP E t) (hQ : SoundQ E ts) :
+    SoundQ E (t :: ts) := by
+  obtain ⟨p1, p2, p3⟩ := hP
+  obtain ⟨q1, q2, q3, q4, q5⟩ := hQ
+  refine ⟨?_, ?_, ?_, ?_, ?_⟩
+  · intro hc v w x hx hok
+    simp only [soundCleanL, Bool.and_eq_true] at hc
+    rw [flatFast_cons, List.mem_append] at hx
+    rcases hx with hx | hx
+    · cases hd : descOf E t with
+      | none => simp [hd] at hx
+      | some d =>
+        simp only [hd] at hx
+        exact ⟨t, by simp, p1 hc.1 d v w x hd hx hok⟩
+    · obtain ⟨t', hm, hg⟩ := q1 hc.2 v w x hx hok
+      exact ⟨t', by simp [hm], hg⟩
+  · intro hc v w h
+    simp only [soundCleanL, Bool.and_eq_true] at hc
+    simp only [pySel] at h
+    cases hd : descOf E t with
+    | some d =>
+      simp [hd] at h
+      obtain ⟨t', hm, hg⟩ := q2 hc.2 v w h
+      exact ⟨t', by simp [hm], hg⟩
+    | none =>
+      simp only [hd, Option.isSome_none, beq_self_eq_true, if_true] at h
+      cases hpy : pyValidate E t v with
+      | traitError =>
+        simp only [hpy] at h
+        obtain ⟨t', hm, hg⟩ := q2 hc.2 v w h
+        exact ⟨t', by simp [hm], hg⟩
+      | raised e => simp [hpy] at h
+      | ok x =>
+        simp [hpy] at h; subst h
+        by_cases hp : hasPy t = true
+        · exact ⟨t, by simp, p2 hc.1 v x (by rw [ctraitValidate_of_none E t v hd hp, hpy])⟩
+        · have := hasPy_false_raises E t v (by simpa using hp)
+          rw [this] at hpy; cases hpy
+  · intro hc hpc v w h
+    simp only [soundCleanL, pyCleanL, Bool.and_eq_true] at hc hpc
+    simp only [pySel] at h
+    cases hd : descOf E t with
+    | none =>
+      simp [hd] at h
+      obtain ⟨t', hm, hg⟩ := q3 hc.2 hpc.2 v w h
+      exact ⟨t', by simp [hm], hg⟩
+    | some d =>
+      simp only [hd, Option.isSome_some, beq_self_eq_true, if_true] at h
+      cases hpy : pyValidate E t v with
+      | traitError =>
+        simp only [hpy] at h
+        obtain ⟨t', hm, hg⟩ := q3 hc.2 hpc.2 v w h
+        exact ⟨t', by simp [hm], hg⟩
+      | raised e => simp [hpy] at h
+      | ok x =>
+        simp [hpy] at h; subst h
+        exact ⟨t, by simp, p3 hc.1 hpc.1 v x hpy⟩
+  · intro hc v w h
+    simp only [soundCleanL, Bool.and_eq_true] at hc
+    simp only [unionFirst] at h
+    have hct : ctraitValidateWith E (descOf E t) (hasPy t) (fun x => pyValidate E t x) v = ctraitValidate E t v := rfl
+    rw [hct] at h
+    cases hr : ctraitValidate E t v with
+    | traitError =>
+      simp only [hr] at h
+      obtain ⟨t', hm, hg⟩ := q4 hc.2 v w h
+      exact ⟨t', by simp [hm], hg⟩
+    | raised e => simp [hr] at h
+    | ok x =>
+      simp [hr] at h; subst h
+      exact ⟨t, by simp, p2 hc.1 v x hr⟩
+  · intro hc vs ws h hl
+    simp only [soundCleanL, Bool.and_eq_true] at hc
+    cases vs with
+    | nil => simp at hl
+    | cons b bs =>
+      simp only [ctraitValidateL] at h
+      have hct : ctraitValidateWith E (descOf E t) (hasPy t) (fun x => pyValidate E t x) b = ctraitValidate E t b := rfl
+      rw [hct] at h
+      cases hr : ctraitValidate E t b with
+      | traitError => simp [hr] at h
+      | raised e => simp [hr] at h
+      | ok a =>
+        simp only [hr] at h
+        cases hrest : ctraitValidateL E ts bs with
+        | error x => simp [hrest] at h
+        | ok as =>
+          simp [hrest] at h; subst h
+          have hg := p2 hc.1 b a hr
+          obtain ⟨h1, h2⟩ := q5 hc.2 bs as hrest (by simpa using hl)
+          exact ⟨by simp [inDomainL, hg.1, h1], ⟨hg.2, h2⟩⟩
+
+
+theorem soundP_atomic (hE : EnvOK E) (t : TraitType) (hs : t.subs = none) (hn : t.isNoFast = false) :
+    SoundP E t := by
+  have hsc : t.soundClean = t.soundLeaf := by
+    cases t <;> simp [TraitType.subs, TraitType.isNoFast] at hs hn <;> rfl
+  have hpc : t.pyClean = t.leafClean := by
+    cases t <;> simp [TraitType.subs, TraitType.isNoFast] at hs hn <;> rfl
+  refine ⟨?_, ?_, ?_⟩
+  · intro hc d v w x hd hx hok
+    have ha := descOf_leaf_shape E t d hs hd
+    have hx' : x = d := by
+      cases d <;> simp [Desc.isAlt] at ha <;> simpa [Desc.entries] using hx
+    subst hx'
+    rw [altAlone_of_isAlt E x v ha] at hok
+    exact sound_atomic_ctrait E hE t hs hn (hsc ▸ hc) v w
+      (by simp [ctraitValidate, ctraitValidateWith, hd, hok])
+  · intro hc v w h
+    exact sound_atomic_ctrait E hE t hs hn (hsc ▸ hc) v w h
+  · intro hc hp v w h
+    exact sound_atomic_py E hE t hs hn (hsc ▸ hc) (hpc ▸ hp) v w h
+
+theorem soundP_noFast (t : TraitType) (hP : SoundP E t) : SoundP E (.noFast t) := by
+  obtain ⟨_, _, p3⟩ := hP
+  have hgood : ∀ v w, Good E t v w → Good E (.noFast t) v w := by
+    intro v w hg; exact ⟨by simpa [inDomain] using hg.1, by simpa [Conv] using hg.2⟩
+  refine ⟨?_, ?_, ?_⟩
+  · intro _ d v w x hd; simp [descOf] at hd
+  · intro hc v w h
+    simp only [TraitType.soundClean, Bool.and_eq_true] at hc
+    have : ctraitValidate E (.noFast t) v = pyValidate E t v := by
+      simp [ctraitValidate, ctraitValidateWith, descOf, hasPy, hc.2, pyValidate]
+    rw [this] at h
+    exact hgood v w (p3 hc.1.1 hc.1.2 v w h)
+  · intro hc hp v w h
+    simp only [TraitType.soundClean, Bool.and_eq_true] at hc
+    simp only [pyValidate] at h
+    exact hgood v w (p3 hc.1.1 (by simpa [TraitType.pyClean] using hp) v w h)
+
+theorem tuple_fast_ok (items : List TraitType) (v w : Val)
+    (h : fastAlone E (.tuple (ctraitDescL E items)) v = .ok w) :
+    ∃ sub vs sub' ws, v = .tuple sub vs ∧ w = .tuple sub' ws ∧ items.length = vs.length ∧
+      ctraitValidateL E items vs = .ok ws := by
+  simp only [fastAlone] at h
+  rcases v with a | ⟨sub, vs⟩ | vs
+  · simp [tupleCheckWith] at h
+  · simp only [tupleCheckWith, ctraitDescL_length, tupleItems_ctrait] at h
+    by_cases hl : items.length = vs.length
+    · simp only [hl, if_true] at h
+      cases hr : ctraitValidateL E items vs with
+      | error x => cases x <;> simp [hr] at h
+      | ok ws =>
+        simp only [hr] at h
+        by_cases hb : Val.beqL ws vs = true
+        · simp [hb] at h; subst h
+          have := (Val.beqL_iff ws vs).mp hb
+          exact ⟨sub, vs, sub, vs, rfl, rfl, hl, this ▸ rfl⟩
+        · simp [hb] at h; subst h
+          exact ⟨sub, vs, false, ws, rfl, rfl, hl, rfl⟩
+    · simp [hl] at h
+  · simp [tupleCheckWith] at h
+
+theorem soundP_tuple (items : List TraitType) (hQ : SoundQ E items) : SoundP E (.tuple items) := by
+  obtain ⟨_, _, _, _, q5⟩ := hQ
+  have hd0 : descOf E (.tuple items) = some (.tuple (ctraitDescL E items)) := by simp [descOf]
+  have hfast : ∀ v w, soundCleanL items = true → fastAlone E (.tuple (ctraitDescL E items)) v = .ok w →
+      Good E (.tuple items) v w := by
+    intro v w hc h
+    obtain ⟨sub, vs, sub', ws, rfl, rfl, hl, hr⟩ := tuple_fast_ok E items _ _ h
+    obtain ⟨h1, h2⟩ := q5 hc vs ws hr hl
+    exact ⟨by simpa [inDomain] using h1, by simpa [Conv] using h2⟩
+  refine ⟨?_, ?_, ?_⟩
+  · intro hc d v w x hd hx hok
+    rw [hd0] at hd; cases hd
+    simp [Desc.entries] at hx; subst hx
+    exact hfast v w (by simpa [TraitType.soundClean] using hc) (by simpa [altAlone] using hok)
+  · intro hc v w h
+    exact hfast v w (by simpa [TraitType.soundClean] using hc)
+      (by simpa [ctraitValidate, ctraitValidateWith, hd0] using h)
+  · intro hc _ v w h
+    simp only [pyValidate] at h
+    rcases v with a | ⟨sub, vs⟩ | vs
+    · simp at h
+    · simp only at h
+      by_cases hl : vs.length = items.length
+      · simp only [hl, if_true] at h
+        cases hr : ctraitValidateL E items vs with
+        | error x => cases x <;> simp [hr] at h
+        | ok ws =>
+          simp [hr] at h; subst h
+          obtain ⟨h1, h2⟩ := q5 (by simpa [TraitType.soundClean] using hc) vs ws hr hl.symm
+          exact ⟨by simpa [inDomain] using h1, by simpa [Conv] using h2⟩
+      · simp [hl] at h
+    · simp at h
+
+theorem soundP_baseTuple (items : List TraitType) (hQ : SoundQ E items) : SoundP E (.baseTuple items) := by
+  obtain ⟨_, _, _, _, q5⟩ := hQ
+  have hpy : ∀ v w, soundCleanL items = true → pyValidate E (.baseTuple items) v = .ok w →
+      Good E (.baseTuple items) v w := by
+    intro v w hc h
+    simp only [pyValidate] at h
+    rcases v with a | ⟨sub, vs⟩ | vs
+    · simp at h
+    · simp only at h
+      by_cases hl : vs.length = items.length
+      · simp only [hl, if_true] at h
+        cases hr : ctraitValidateL E items vs with
+        | error x => simp [hr] at h
+        | ok ws =>
+          simp [hr] at h; subst h
+          obtain ⟨h1, h2⟩ := q5 hc vs ws hr hl.symm
+          exact ⟨by simpa [inDomain] using h1, by simpa [Conv] using h2⟩
+      · simp [hl] at h
+    · simp only at h
+      by_cases hl : vs.length = items.length
+      · simp only [hl, if_true] at h
+        cases hr : ctraitValidateL E items vs with
+        | error x => simp [hr] at h
+        | ok ws =>
+          simp [hr] at h; subst h
+          obtain ⟨h1, h2⟩ := q5 hc vs ws hr hl.symm
+          exact ⟨by simpa [inDomain] using h1, by simpa [Conv] using h2⟩
+      · simp [hl] at h
+  refine ⟨?_, ?_, ?_⟩
+  · intro _ d v w x hd; simp [descOf] at hd
+  · intro hc v w h
+    exact hpy v w (by simpa [TraitType.soundClean] using hc)
+      (by simpa [ctraitValidate, ctraitValidateWith, descOf, hasPy] using h)
+  · intro hc _ v w h
+    exact hpy v w (by simpa [TraitType.soundClean] using hc) h
+
+theorem soundP_union (alts : List TraitType) (hQ : SoundQ E alts) : SoundP E (.union alts) := by
+  obtain ⟨_, _, _, q4, _⟩ := hQ
+  have hpy : ∀ v w, soundCleanL alts = true → pyValidate E (.union alts) v = .ok w →
+      Good E (.union alts) v w := by
+    intro v w hc h
+    simp only [pyValidate] at h
+    obtain ⟨t, hm, hg⟩ := q4 hc v w h
+    obtain ⟨h1, h2⟩ := good_any_of_mem E alts t v w hm hg
+    exact ⟨by simpa [inDomain] using h1, by simpa [Conv] using h2⟩
+  refine ⟨?_, ?_, ?_⟩
+  · intro _ d v w x hd; simp [descOf] at hd
+  · intro hc v w h
+    exact hpy v w (by simpa [TraitType.soundClean] using hc)
+      (by simpa [ctraitValidate, ctraitValidateWith, descOf, hasPy] using h)
+  · intro hc _ v w h
+    exact hpy v w (by simpa [TraitType.soundClean] using hc) h
 
 end TraitsVerif.Model.Val
